@@ -102,6 +102,10 @@ def oracle_selection(case):
     from copulas.utils import get_instance
 
     x = np.array(case['_x'], dtype=float) if case.get('_x') is not None else c03.make_data(case['data'])
+    if case.get('outlier_exp') is not None:
+        # a few astronomically large values: several families then "fit" but their CDF is nan - such a candidate has no
+        # KS distance and cannot be the one with the minimal distance
+        x = np.concatenate((x, [10.0 ** case['outlier_exp'], 10.0 ** (case['outlier_exp'] - 1)]))
     if len(np.unique(x)) < (3 if case.get('_x') is not None else 5):
         return {'nontrivial': False, 'classes': ['too-few-distinct']}
     cfg = case['config']
@@ -160,7 +164,8 @@ def oracle_selection(case):
     require(ok_any, 'the fitted wrapper does not behave like %s fitted on the data' % sel, tag='wrapper-behaviour')
     distinct = len({round(k, 12) for _, k in fittable}) >= 2
     return {'nontrivial': len(fittable) >= 2 and distinct, 'classes': ['mode:' + cfg['mode'], 'selected:' + sel,
-                                                                        'fittable=%d' % len(fittable)]}
+                                                                        'fittable=%d' % len(fittable)]
+            + (['nan-ks-candidate'] if any(k is None for _, k in table) else []) + (['huge-outliers'] if case.get('outlier_exp') is not None else [])}
 
 
 def large_strategy():
@@ -326,7 +331,14 @@ def oracle_columns(case):
 
 
 SUBS = [
-    Sub('selection_optimality', st.fixed_dictionaries({'data': c03.data_strategy(600), 'config': uni_config()}), oracle_selection,
+    Sub('selection_optimality', st.one_of(
+        st.fixed_dictionaries({'data': c03.data_strategy(600), 'config': uni_config(), 'outlier_exp': st.none()}),
+        st.fixed_dictionaries({'data': c03.data_strategy(600), 'config': uni_config(), 'outlier_exp': st.none()}),
+        st.fixed_dictionaries({'data': c03.data_strategy(600), 'config': uni_config(), 'outlier_exp': st.floats(100.0, 300.0)}),
+        # a candidate that fits but has a nan CDF on such data (TruncatedGaussian) heads the list
+        st.fixed_dictionaries({'data': c03.data_strategy(600), 'outlier_exp': st.floats(100.0, 300.0), 'config': st.fixed_dictionaries({
+            'mode': st.just('candidates'),
+            'cands': st.lists(cand_entry(), min_size=1, max_size=3).map(lambda rest: [{'form': 'class', 'name': 'TruncatedGaussian'}] + rest)})})), oracle_selection,
         quick=96, thorough=1920, shrink=False),
     Sub('selection_large_poor_fit', large_strategy(), oracle_large, quick=32, thorough=960, shrink=False),
     Sub('per_column_configuration', column_strategy(), oracle_columns, quick=160, thorough=9600),
